@@ -1628,6 +1628,7 @@ func (in *inliner) sroaFunc(pk *packages.Package, file *ast.File, fd *ast.FuncDe
 		st     *types.Struct
 		define ast.Stmt
 		lit    *ast.CompositeLit // nil for `var x T`
+		from   *ast.Ident        // `x := y`: the aggregate it is copied from
 	}
 	var cands []*cand
 	litOf := func(e ast.Expr) *ast.CompositeLit {
@@ -1671,7 +1672,18 @@ func (in *inliner) sroaFunc(pk *packages.Package, file *ast.File, fd *ast.FuncDe
 				if ok && cl != nil {
 					if v, isVar := info.Defs[id].(*types.Var); isVar {
 						if st := structOf(v.Type()); st != nil && st.NumFields() > 0 {
-							cands = append(cands, &cand{v, st, x, cl})
+							cands = append(cands, &cand{v, st, x, cl, nil})
+						}
+					}
+				} else if src, isID := x.Rhs[0].(*ast.Ident); ok && isID {
+					// `x := y`, y a local aggregate of the same struct type: a copy, field by field
+					if v, isVar := info.Defs[id].(*types.Var); isVar {
+						if sv, isSV := info.Uses[src].(*types.Var); isSV && types.Identical(sv.Type(), v.Type()) {
+							if _, isPtr := v.Type().Underlying().(*types.Pointer); !isPtr {
+								if st := structOf(v.Type()); st != nil && st.NumFields() > 0 {
+									cands = append(cands, &cand{v, st, x, nil, src})
+								}
+							}
 						}
 					}
 				}
@@ -1683,7 +1695,7 @@ func (in *inliner) sroaFunc(pk *packages.Package, file *ast.File, fd *ast.FuncDe
 					if v, isVar := info.Defs[vs.Names[0]].(*types.Var); isVar {
 						if _, isPtr := v.Type().Underlying().(*types.Pointer); !isPtr {
 							if st := structOf(v.Type()); st != nil && st.NumFields() > 0 {
-								cands = append(cands, &cand{v, st, x, nil})
+								cands = append(cands, &cand{v, st, x, nil, nil})
 							}
 						}
 					}
@@ -1713,14 +1725,59 @@ func (in *inliner) sroaFunc(pk *packages.Package, file *ast.File, fd *ast.FuncDe
 		uses := map[*ast.SelectorExpr]int{} // selector -> field index
 		var walk func(n ast.Node, inFuncLit bool)
 		parentSel := map[*ast.Ident]*ast.SelectorExpr{}
+		parentAsg := map[*ast.Ident]*ast.AssignStmt{}
 		ast.Inspect(fd.Body, func(n ast.Node) bool {
 			if sel, ok := n.(*ast.SelectorExpr); ok {
 				if id, isID := sel.X.(*ast.Ident); isID {
 					parentSel[id] = sel
 				}
 			}
+			if as, ok := n.(*ast.AssignStmt); ok && len(as.Lhs) == 1 && len(as.Rhs) == 1 {
+				if id, isID := as.Lhs[0].(*ast.Ident); isID {
+					parentAsg[id] = as
+				}
+				if id, isID := as.Rhs[0].(*ast.Ident); isID {
+					parentAsg[id] = as
+				}
+			}
 			return true
 		})
+		_, candIsPtr := c.obj.Type().Underlying().(*types.Pointer)
+		wholeRHS := map[*ast.AssignStmt]bool{} // z = x / z := x
+		wholeLHS := map[*ast.AssignStmt]bool{} // x = y / x = T{...}
+		completeLit := func(e ast.Expr) ([]ast.Expr, bool) {
+			cl, ok := e.(*ast.CompositeLit)
+			if !ok || len(cl.Elts) != c.st.NumFields() {
+				return nil, false
+			}
+			vals := make([]ast.Expr, c.st.NumFields())
+			for i, el := range cl.Elts {
+				if kv, isKV := el.(*ast.KeyValueExpr); isKV {
+					k, isID := kv.Key.(*ast.Ident)
+					if !isID {
+						return nil, false
+					}
+					idx := -1
+					for fi := 0; fi < c.st.NumFields(); fi++ {
+						if c.st.Field(fi).Name() == k.Name {
+							idx = fi
+						}
+					}
+					if idx < 0 || vals[idx] != nil {
+						return nil, false
+					}
+					vals[idx] = kv.Value
+				} else {
+					vals[i] = el
+				}
+			}
+			for _, v := range vals {
+				if v == nil {
+					return nil, false
+				}
+			}
+			return vals, true
+		}
 		walk = func(n ast.Node, inFuncLit bool) {
 			ast.Inspect(n, func(m ast.Node) bool {
 				switch x := m.(type) {
@@ -1734,6 +1791,38 @@ func (in *inliner) sroaFunc(pk *packages.Package, file *ast.File, fd *ast.FuncDe
 						return true
 					}
 					sel := parentSel[x]
+					if sel == nil && !inFuncLit && !candIsPtr {
+						// the whole value copied to or from another aggregate of the same type
+						if as := parentAsg[x]; as != nil && ast.Stmt(as) != c.define {
+							if as.Rhs[0] == ast.Expr(x) {
+								if lid, isID := as.Lhs[0].(*ast.Ident); isID {
+									var lt types.Type
+									if o := info.Defs[lid]; o != nil {
+										lt = o.Type()
+									} else if o := info.Uses[lid]; o != nil {
+										lt = o.Type()
+									}
+									if lt != nil && types.Identical(lt, c.obj.Type()) {
+										wholeRHS[as] = true
+										return true
+									}
+								}
+							} else if as.Lhs[0] == ast.Expr(x) && as.Tok == token.ASSIGN {
+								if rid, isID := as.Rhs[0].(*ast.Ident); isID {
+									if o, isV := info.Uses[rid].(*types.Var); isV && types.Identical(o.Type(), c.obj.Type()) {
+										wholeLHS[as] = true
+										return true
+									}
+								}
+								if _, okL := completeLit(as.Rhs[0]); okL {
+									if tv, okT := info.Types[as.Rhs[0]]; okT && types.Identical(tv.Type, c.obj.Type()) {
+										wholeLHS[as] = true
+										return true
+									}
+								}
+							}
+						}
+					}
 					if sel == nil || inFuncLit {
 						okUse = false
 						return true
@@ -1787,6 +1876,12 @@ func (in *inliner) sroaFunc(pk *packages.Package, file *ast.File, fd *ast.FuncDe
 			}
 			if bad {
 				continue
+			}
+		}
+		if c.from != nil {
+			for fi := 0; fi < c.st.NumFields(); fi++ {
+				vals[fi] = &ast.SelectorExpr{X: ast.NewIdent(c.from.Name), Sel: ast.NewIdent(c.st.Field(fi).Name())}
+				order = append(order, fi)
 			}
 		}
 		fname := make([]string, c.st.NumFields())
@@ -1848,6 +1943,44 @@ func (in *inliner) sroaFunc(pk *packages.Package, file *ast.File, fd *ast.FuncDe
 			case *ast.SelectorExpr:
 				if fi, ok := uses[x]; ok {
 					cu.Replace(ast.NewIdent(fname[fi]))
+					return false
+				}
+			case *ast.AssignStmt:
+				if wholeRHS[x] {
+					texpr, err := typeExpr(types.TypeString(c.obj.Type(), qual))
+					if err == nil {
+						lit := &ast.CompositeLit{Type: texpr}
+						for fi := 0; fi < c.st.NumFields(); fi++ {
+							lit.Elts = append(lit.Elts, &ast.KeyValueExpr{Key: ast.NewIdent(c.st.Field(fi).Name()), Value: ast.NewIdent(fname[fi])})
+						}
+						x.Rhs[0] = lit
+					}
+					return false
+				}
+				if wholeLHS[x] {
+					na := &ast.AssignStmt{Tok: token.ASSIGN}
+					if rid, isID := x.Rhs[0].(*ast.Ident); isID {
+						for fi := 0; fi < c.st.NumFields(); fi++ {
+							na.Lhs = append(na.Lhs, ast.NewIdent(fname[fi]))
+							na.Rhs = append(na.Rhs, &ast.SelectorExpr{X: ast.NewIdent(rid.Name), Sel: ast.NewIdent(c.st.Field(fi).Name())})
+						}
+					} else if vs, okL := completeLit(x.Rhs[0]); okL {
+						for fi := 0; fi < c.st.NumFields(); fi++ {
+							na.Lhs = append(na.Lhs, ast.NewIdent(fname[fi]))
+							na.Rhs = append(na.Rhs, vs[fi])
+						}
+					}
+					if len(na.Lhs) > 0 && cu.Index() >= 0 {
+						cu.Replace(na)
+					}
+					return false
+				}
+				if ast.Stmt(x) == c.define && cu.Index() >= 0 {
+					cu.Replace(repl[0])
+					for i := len(repl) - 1; i >= 1; i-- {
+						cu.InsertAfter(repl[i])
+					}
+					replaced = true
 					return false
 				}
 			case ast.Stmt:
